@@ -38,14 +38,14 @@ func GenOps(rt *rapid.T, n int, kinds []string) []Op {
 		case "del", "get":
 			op.Key = rapid.IntRange(0, 15).Draw(rt, "key")
 		case "scan":
-			op.Pfx = hx.AdversarialKeys[rapid.IntRange(0, 7).Draw(rt, "pfx")]
+			op.Pfx = hx.AdversarialKeys[rapid.IntRange(0, len(hx.AdversarialKeys)-1).Draw(rt, "pfx")]
 		case "hold":
 			op.A = rapid.IntRange(0, 3).Draw(rt, "class")
 			op.On = rapid.Bool().Draw(rt, "on")
 		case "swapread":
 			op.Key = rapid.IntRange(0, 15).Draw(rt, "key")
 			op.On = rapid.Bool().Draw(rt, "scan")
-			op.Pfx = hx.AdversarialKeys[rapid.IntRange(0, 7).Draw(rt, "pfx")]
+			op.Pfx = hx.AdversarialKeys[rapid.IntRange(0, len(hx.AdversarialKeys)-1).Draw(rt, "pfx")]
 		case "retain":
 			op.A = rapid.IntRange(0, 255).Draw(rt, "mask")
 			op.B = rapid.IntRange(0, 3).Draw(rt, "late")
